@@ -113,9 +113,12 @@ m("C01", "proof",
   "the filestore checksum of the first `progress` bytes equals the EOF checksum (or null/metadata-only) and "
   "changes neither file nor progress (C01_verify_sound, C01_verify_failure_keeps_incomplete); that checksum is "
   "the CRC of exactly those bytes (C01_verified_is_crc via C09); the sender's report copies the Finished PDU "
-  "(C01_source_report_copies_pdu). The temporal glue between verification and report (same call, no write in "
-  "between) is not one theorem; it is covered by the fault-schedule exploration on implementation and model.",
-  "Lean 4 theorems (frame invariant + verification contract) + differential correspondence + fault-schedule search",
+  "(C01_source_report_copies_pdu). Every history: the invariant 'Data-complete implies the stored file has the "
+  "EOF checksum over the first `progress` bytes, and the handler is then in a step that writes nothing' holds "
+  "for a new handler and is preserved by every call of the user, the peer and the filestore (C01_dest_step, "
+  "Lemmas/SafeDestC01.lean, Std.Do specifications of every receiver method), hence after any operation list "
+  "(C01_dest_complete_means_verified_all_histories).",
+  "Lean 4 theorems (every-history invariant, frame lemmas, verification contract) + differential correspondence + fault-schedule search",
   "§6 C01", ["collision = equal negotiated checksum of unequal contents (accepted by the property)"])
 m("C02", "proof",
   "fault-free end-to-end sessions over the configuration cross product (mode x closure x checksum type x CRC "
